@@ -2,6 +2,7 @@ import SaphyrVerif.Props.C02
 import SaphyrVerif.Props.C07
 import SaphyrVerif.Props.C07_Tables
 import SaphyrVerif.Model.De
+import SaphyrVerif.Lemmas.C01
 /-!
 # C01 — deserialization is total: no panic, abort or hang (the part a model can carry)
 
@@ -14,20 +15,92 @@ observations of the sweep (`harness/src/total.rs`).
 -/
 namespace SaphyrVerif.Props.C01
 open SaphyrVerif SaphyrVerif.Scalars SaphyrVerif.Pump SaphyrVerif.Budget SaphyrVerif.Spec
+open SaphyrVerif.Lemmas.C01
 
-/-- (T) pump_progress: a `next_impl` call never invents input — what remains is a suffix of what it was
-given — and when it delivers an event it either consumed at least one parser item or advanced a replay
-frame. Hence `ReadIter::next`, `pumpAll`, `skip_to_next_document` cannot spin on a finite stream. -/
-theorem pump_progress (p : Pump) (inp : List RawItem) :
+/-- (T, as given) pump_progress: a `next_impl` call never invents input — what remains is a suffix of what
+it was given — and when it delivers an event it either consumed at least one parser item or advanced a
+replay frame.
+FALSE as stated: at the end of the parser stream, with no replay frame and `produced_any_in_doc == false`,
+`next_impl` delivers the *synthesized null* event (`live_events.rs`, "if !self.produced_any_in_doc") having
+consumed nothing.  Kept as a `Prop`; see the counterexample and the corrected version (one more disjunct,
+which can fire at most once because it sets `produced_any`, see `pump_produced_any_monotone`). -/
+def pump_progress_Full : Prop :=
+  ∀ (p : Pump) (inp : List RawItem),
+    ∃ consumed, inp = consumed ++ (nextImpl p inp).2.2 ∧
+      (consumed = [] → (nextImpl p inp).1 = .eof ∨ (∃ e, (nextImpl p inp).1 = .error e) ∨
+        (∃ fr rest, p.inject = fr :: rest))
+
+/-- The counterexample: a fresh pump (`produced_any = false`, no replay frame) on the empty parser stream
+delivers an event — the synthesized null scalar — and nothing was there to consume. -/
+theorem pump_progress_counterexample :
+    let p : Pump := { limits := ⟨0, 0, 0⟩ }
+    p.inject = [] ∧
+    nextImpl p [] =
+      (.event (.scalar [] 4 none .plain 0 0), { p with producedAny := true, synthesizedNull := true }, []) :=
+  ⟨rfl, rfl⟩
+
+theorem pump_progress_Full_false : ¬ pump_progress_Full := by
+  intro h
+  obtain ⟨c, h1, h2⟩ := h { limits := ⟨0, 0, 0⟩ } []
+  have hc : c = [] := by
+    cases c with
+    | nil => rfl
+    | cons a t => cases h1
+  rw [pump_progress_counterexample.2] at h2
+  rcases h2 hc with h | ⟨e, h⟩ | ⟨fr, rest, h⟩ <;> cases h
+
+/-- (T) pump_progress, corrected (CHANGE: fourth disjunct added): a `next_impl` call never invents input —
+what remains is a suffix of what it was given — and when it consumed nothing, then it reports end of stream
+or an error, or a replay frame was open, or the parser stream is exhausted, nothing had been produced in
+the document and the step is the one synthesized null event, after which `produced_any` is set (so the
+next call at the end of the stream answers `eof`).  Hence `ReadIter::next`, `pumpAll`,
+`skip_to_next_document` cannot spin on a finite stream. -/
+theorem pump_progress_partial (p : Pump) (inp : List RawItem) :
+    ∃ consumed, inp = consumed ++ (nextImpl p inp).2.2 ∧
+      (consumed = [] → (nextImpl p inp).1 = .eof ∨ (∃ e, (nextImpl p inp).1 = .error e) ∨
+        (∃ fr rest, p.inject = fr :: rest) ∨
+        (inp = [] ∧ p.producedAny = false ∧
+          (nextImpl p inp).1 = .event (.scalar [] 4 none .plain 0 p.lastLoc) ∧
+          (nextImpl p inp).2.1.producedAny = true ∧ (nextImpl p inp).2.1.synthesizedNull = true)) := by
+  obtain ⟨c, h1, h2⟩ := nextImpl_progress p inp
+  refine ⟨c, h1, fun hc => ?_⟩
+  rcases h2 hc with ⟨s, p', hs⟩ | ⟨rfl, p', hs, hn⟩
+  · exact .inr (.inr (.inl (serveInject_some_inject p s p' hs)))
+  · have hp := serveInject_none p p.inject p' hs
+    subst hp
+    rw [hn, parserLoop_nil]
+    cases hpa : p.producedAny
+    · exact .inr (.inr (.inr ⟨rfl, rfl, by simp, by simp, by simp⟩))
+    · exact .inl (by simp)
+
+/-- (T) the original statement holds whenever something was already produced in the document or the parser
+stream is not exhausted -/
+theorem pump_progress_of_produced (p : Pump) (inp : List RawItem) (hp : p.producedAny = true ∨ inp ≠ []) :
     ∃ consumed, inp = consumed ++ (nextImpl p inp).2.2 ∧
       (consumed = [] → (nextImpl p inp).1 = .eof ∨ (∃ e, (nextImpl p inp).1 = .error e) ∨
         (∃ fr rest, p.inject = fr :: rest)) := by
-  sorry
+  obtain ⟨c, h1, h2⟩ := pump_progress_partial p inp
+  refine ⟨c, h1, fun hc => ?_⟩
+  rcases h2 hc with h | h | h | ⟨h3, h4, -⟩
+  · exact .inl h
+  · exact .inr (.inl h)
+  · exact .inr (.inr h)
+  · rcases hp with hp | hp
+    · rw [hp] at h4; cases h4
+    · exact absurd h3 hp
+
+/-- (T) `produced_any_in_doc` is never cleared by `next_impl` and is set by every delivered event: the extra
+disjunct of `pump_progress_partial` fires at most once between two `skip_to_next_document` calls. -/
+theorem pump_produced_any_monotone (p : Pump) (inp : List RawItem) :
+    (p.producedAny = true → (nextImpl p inp).2.1.producedAny = true) ∧
+    (∀ e, (nextImpl p inp).1 = .event e → (nextImpl p inp).2.1.producedAny = true) :=
+  nextImpl_producedAny p inp
 
 /-- (T) skip_to_next_doc_total: the recovery path consumes a prefix of the input -/
 theorem skip_progress (p : Pump) (inp : List RawItem) :
     ∃ consumed, inp = consumed ++ (skipToNextDocument p inp).2.2 := by
-  sorry
+  obtain ⟨c, h, -⟩ := skipLoop_progress { p with look := none, inject := [], recStack := [] } inp
+  exact ⟨c, h⟩
 
 /-- (T) events_peek_next_coherent (re-export of the C02 theorem): after `peek` returned an event, `next`
 returns that same event — the `self.ev.next()?.unwrap()` sites of `deserialize_enum` and the
@@ -40,8 +113,8 @@ theorem peek_then_next (p : Pump) (inp : List RawItem) (e : Ev) (p1 : Pump) (in1
 `KeyNode::fingerprint`'s `unreachable!()` cannot fire) -/
 theorem capture_scalar_singleton (fuel : Nat) (c c' : De.Cur) (k : De.KeyNode) (v : List Char) (tag : Nat)
     (h : De.capture fuel c = .ok k c') (hfp : k.fp = .scalar v tag) :
-    ∃ rt st a l, k.events = [.scalar v tag rt st a l] := by
-  sorry
+    ∃ rt st a l, k.events = [.scalar v tag rt st a l] :=
+  capture_scalar fuel c c' k v tag h hfp
 
 /-- (T) radix_slice_safe: the legacy-octal branch of `radix_and_digits` slices `&rest[2..]` only when `rest`
 starts with the two ASCII characters `00`, so byte index 2 is in range and on a character boundary -/
@@ -49,7 +122,10 @@ theorem radix_slice_safe (rest : List Char) (r : Nat) (ds : List Char)
     (h : radixAndDigits true rest = (r, ds)) (h8 : r = 8)
     (hx : ∀ t, rest ≠ '0' :: 'o' :: t ∧ rest ≠ '0' :: 'O' :: t) :
     ∃ t, rest = '0' :: '0' :: t := by
-  sorry
+  rcases radix_eight rest r ds h h8 with ⟨t, ht⟩ | ⟨t, ht⟩ | h0
+  · exact absurd ht (hx t).1
+  · exact absurd ht (hx t).2
+  · exact h0
 
 /-- (T) depth_bounded_by_budget: if the enforcer accepted a stream, the nesting depth it reached is within
 `max_depth`; with the default budget regenerated from the source this is ≤ 2000 — the figure the 8 MiB
@@ -57,16 +133,32 @@ stack probe of the sweep exercises (depths 1999/2000/2001). -/
 theorem depth_bounded_by_budget (lim : Limits) (ds : List Node) (e : Enf)
     (hlen : (flattenStream ds).length < 2 ^ 64) (h : run lim false (flattenStream ds) = .ok e) :
     (usage ds).maxDepth ≤ lim.maxDepth := by
-  sorry
+  have hw := (C07.accepts_iff lim ds hlen).mp ⟨e, h⟩
+  simp only [within, Bool.and_eq_true, decide_eq_true_eq] at hw
+  exact hw.1.1.1.1.2
 
 theorem default_budget_depth_bound (ds : List Node) (e : Enf)
     (hlen : (flattenStream ds).length < 2 ^ 64)
-    (h : run C07_Tables.defaultLimits false (flattenStream ds) = .ok e) : (usage ds).maxDepth ≤ 2000 := by
-  sorry
+    (h : run C07_Tables.defaultLimits false (flattenStream ds) = .ok e) : (usage ds).maxDepth ≤ 2000 :=
+  Nat.le_trans (depth_bounded_by_budget _ ds e hlen h) C07_Tables.default_depth_le_2000
 
 /-- (T) ratio_mul_no_overflow: the alias/anchor ratio product is computed saturating — it never exceeds
 `usize::MAX` (debug builds used to panic here, finding C07-ratio-overflow) -/
 theorem ratio_mul_no_overflow (a b : Nat) : satMul a b ≤ USIZE_MAX := by
-  sorry
+  unfold satMul
+  split <;> omega
 
 end SaphyrVerif.Props.C01
+
+#print axioms SaphyrVerif.Props.C01.pump_progress_counterexample
+#print axioms SaphyrVerif.Props.C01.pump_progress_Full_false
+#print axioms SaphyrVerif.Props.C01.pump_progress_partial
+#print axioms SaphyrVerif.Props.C01.pump_progress_of_produced
+#print axioms SaphyrVerif.Props.C01.pump_produced_any_monotone
+#print axioms SaphyrVerif.Props.C01.skip_progress
+#print axioms SaphyrVerif.Props.C01.peek_then_next
+#print axioms SaphyrVerif.Props.C01.capture_scalar_singleton
+#print axioms SaphyrVerif.Props.C01.radix_slice_safe
+#print axioms SaphyrVerif.Props.C01.depth_bounded_by_budget
+#print axioms SaphyrVerif.Props.C01.default_budget_depth_bound
+#print axioms SaphyrVerif.Props.C01.ratio_mul_no_overflow
